@@ -596,6 +596,39 @@ pub fn run_c16(ctx: &Ctx) -> i32 {
             }
         }
     }
+    // class F: a thread that changes something and then LOOKS, against a thread that only looks: what
+    // the second look reports must not depend on a look that ran in the middle of the change
+    {
+        let muts: Vec<Vec<Call>> = items(&["/a", "/a/f"], false)
+            .into_iter()
+            .filter(|i| !matches!(i[0], Call::ReadDir(_) | Call::Exists(_)))
+            .collect();
+        let looks = [
+            Call::ReadDir("/a"),
+            Call::ReadAll("/a/f"),
+            Call::Metadata("/a/f"),
+            Call::Metadata("/a"),
+            Call::Exists("/a/f"),
+        ];
+        for init in inits16() {
+            for m in &muts {
+                for o2 in &looks {
+                    for o1 in &looks[..3] {
+                        let mut a = m.clone();
+                        a.push(o2.clone());
+                        programs.push((
+                            "2 threads: (change, then look) against a look".into(),
+                            LinProgram {
+                                init: init.clone(),
+                                threads: vec![a, vec![o1.clone()]],
+                                trait_level: false,
+                            },
+                        ));
+                    }
+                }
+            }
+        }
+    }
     println!("C16: {} programs", programs.len());
     let max_execs = if thorough { 200_000 } else { 50_000 };
     let results: Vec<(String, ExploreStats, usize, usize, Vec<Violation>, Vec<usize>)> = programs
